@@ -4,7 +4,7 @@ In C++ mode the tool replaces cbindgen's renderings of the runtime types by its 
 temporary-storage wrapper `RustMaybeUninit<T>`, the four `CGlueObjContainer<T, C, R>` specialisations, `CSliceRef<T>` with
 its std::string bridges, `Callback<T, F>` with its std::vector / functor bridges.  A header for a small API is rendered,
 pushed through the REAL cglue-bindgen (stub `cbindgen` on PATH) and a generated C++ driver operates those declarations
-the way a foreign caller does.  Three exhaustive sweeps (g++ -std=c++11, -O0 and -O2):
+the way a foreign caller does.  Three exhaustive sweeps (g++ and clang++ -std=c++11, -O0 and -O2):
 
   layout    instance T in {CBox<void>, void*} x context C in {none, CArc<void>, 1-, 4-, 8-, 12-byte user contexts}
             x temporary storage R in {none, 1, 2, 4, 8, 24 bytes, 16-byte aligned}: size, alignment and the offset of every
@@ -35,6 +35,9 @@ import bindgen_model as BM  # noqa: E402
 import bindgen_tool as TL  # noqa: E402
 from bindgen_c17 import setup  # noqa: E402
 from pyreport import Report  # noqa: E402
+
+
+COMPILERS = [c for c in ("g++", "clang++") if shutil.which(c)]
 
 
 def model():
@@ -199,13 +202,14 @@ def run_once(exe, stubdir, workroot, L, N, keep=False):
         with open(os.path.join(wd, "driver.cpp"), "w") as f:
             f.write(driver(L, N))
         outs = {}
-        for opt in ("-O0", "-O2"):
-            exe_c = os.path.join(wd, "driver" + opt)
-            p = subprocess.run(["g++", "-std=c++11", opt, "-Wno-invalid-offsetof", "-o", exe_c, "driver.cpp"], cwd=wd, stdout=subprocess.PIPE, stderr=subprocess.STDOUT, text=True)
+        for cxx in COMPILERS:
+          for opt in ("-O0", "-O2"):
+            exe_c = os.path.join(wd, "driver-" + cxx + opt)
+            p = subprocess.run([cxx, "-std=c++11", opt, "-Wno-invalid-offsetof", "-o", exe_c, "driver.cpp"], cwd=wd, stdout=subprocess.PIPE, stderr=subprocess.STDOUT, text=True)
             if p.returncode != 0:
-                return {"compile_error": p.stdout[-2500:]}
+                return {"compile_error": "[%s %s] " % (cxx, opt) + p.stdout[-2500:]}
             q = subprocess.run([exe_c], cwd=wd, stdout=subprocess.PIPE, stderr=subprocess.STDOUT, text=True, timeout=600)
-            outs[opt] = (q.returncode, q.stdout)
+            outs[cxx + " " + opt] = (q.returncode, q.stdout)
         return {"outs": outs}
     finally:
         if not keep:
@@ -278,7 +282,7 @@ def run(prop, tier, replay, Ctx):
     if "machinery" in r:
         raise Ctx.Machinery(r["machinery"])
     sec = "cpp_header_runtime_types"
-    rep.rule(sec, "the runtime-type templates the real cglue-bindgen writes into a C++ header, operated from C++ (g++ -std=c++11 -O0 and -O2): "
+    rep.rule(sec, "the runtime-type templates the real cglue-bindgen writes into a C++ header, operated from C++ (g++ and clang++ -std=c++11, -O0 and -O2): "
                   "container layout for instance {CBox<void>, void*} x context {none, CArc<void>, 1/4/8/12-byte user contexts} x temporary storage {none, 1, 2, 4, 8, 24 bytes, "
                   "16-byte aligned} against the plain struct with the same members (size, alignment, offset of every member) and RustMaybeUninit<X> against X; "
                   "std::string <-> CSliceRef<char|unsigned char> for every byte string of length 0..=%d over {NUL, 'a', 0xC3, ' '} (address, length, bytes); "
@@ -303,6 +307,6 @@ def run(prop, tier, replay, Ctx):
         if ref is None:
             ref = key
         elif ref != key:
-            rep.record(sec, {"kind": "all", "opt": opt}, None, True, ("cpphelper:opt_dependent", "the C++ declarations behave differently at -O0 and -O2"))
+            rep.record(sec, {"kind": "all", "opt": opt}, None, True, ("cpphelper:opt_dependent", "the C++ declarations behave differently between compilers / optimisation levels"))
     rep.note(sec, "wall_s", round(time.time() - t0, 1))
     return ("report", rep.build())
